@@ -367,10 +367,6 @@ Value Search::search(Position& position, Depth depth, Value alpha, Value beta,
         EXIT_SEARCH(Value(0));
     }
 
-    // cannot check it in ROOT_NODE as it might return
-    // without any move
-    if (!ROOT_NODE && (position.is_repeated() || position.is_draw())) EXIT_SEARCH(VALUE_DRAW);
-
     // (data() rather than &*begin(): the root list is empty when `go` is sent in a mated or stalemated position)
     Move* begin = ROOT_NODE ? _root_moves.data() : MOVE_LIST[info->_ply];
     Move* end = ROOT_NODE ? _root_moves.data() + _root_moves.size()
@@ -382,6 +378,12 @@ Value Search::search(Position& position, Depth depth, Value alpha, Value beta,
     if (is_in_check) depth++;
 
     if (n_moves == 0) EXIT_SEARCH(is_in_check ? lost_in(0) : VALUE_DRAW);
+
+    // cannot check it in ROOT_NODE as it might return
+    // without any move
+    // (checked after the mate test: a move that checkmates wins even if it also completes the
+    // 50-move count or repeats a position)
+    if (!ROOT_NODE && (position.is_repeated() || position.is_draw())) EXIT_SEARCH(VALUE_DRAW);
 
     if (depth == 0 || info->_ply >= MAX_DEPTH)
     {
